@@ -30,6 +30,10 @@ pub struct Call {
     pub reply: Reply,
     /// call a node that is not connected
     pub unknown_node: bool,
+    /// the call's argument holds an atom of 70 000 bytes, which no encoding can carry: the request cannot be written although the
+    /// peer is connected and healthy; the call must return an error and leave nothing behind
+    #[serde(default)]
+    pub unsendable: bool,
 }
 
 #[derive(Clone, Debug, Serialize, Deserialize)]
@@ -153,7 +157,7 @@ fn run_net(c: &Case) -> Result<Result<NetOut, String>, BedErr> {
                         }
                     }
                     // issue the wave
-                    hold.set(c.reply_overtakes && p.is_some() && wave.iter().filter(|c| !c.unknown_node).count() == 1);
+                    hold.set(c.reply_overtakes && p.is_some() && wave.iter().filter(|c| !c.unknown_node && !c.unsendable).count() == 1);
                     let mut handles = vec![];
                     for (i, call) in wave.iter().enumerate() {
                         let outer_node = node.clone();
@@ -164,12 +168,13 @@ fn run_net(c: &Case) -> Result<Result<NetOut, String>, BedErr> {
                         handles.push(tokio::task::spawn_local(async move {
                             let target = if call.unknown_node { "nosuch@127.0.0.1" } else { "peer@127.0.0.1" };
                             let t = Duration::from_secs(1 + call.timeout_s as u64 % 8);
-                            let r = node.rpc_call_raw_with_timeout(target, "m", "f", vec![arg(w, i)], t).await;
+                            let args = if call.unsendable { vec![arg(w, i), OwnedTerm::Atom(erltf::types::Atom::new(&"x".repeat(70_000)))] } else { vec![arg(w, i)] };
+                            let r = node.rpc_call_raw_with_timeout(target, "m", "f", args, t).await;
                             outcomes.borrow_mut().push(CallOutcome {
                                 wave: w,
                                 idx: i,
                                 result: r.map(|t| denote(&t)).map_err(|e| e.to_string()),
-                                expect_reply_in_time: in_time && !call.unknown_node,
+                                expect_reply_in_time: in_time && !call.unknown_node && !call.unsendable,
                             });
                         }));
                         if c.id_stride > 0 {
@@ -181,7 +186,7 @@ fn run_net(c: &Case) -> Result<Result<NetOut, String>, BedErr> {
                         }
                     }
                     // late replies of earlier waves arrive now, while this wave is outstanding
-                    let expected_requests = if p.is_some() { wave.iter().filter(|c| !c.unknown_node).count() } else { 0 };
+                    let expected_requests = if p.is_some() { wave.iter().filter(|c| !c.unknown_node && !c.unsendable).count() } else { 0 };
                     let mut reqs: Vec<(Value, usize, usize)> = vec![];
                     if let Some(pc) = p.as_mut() {
                         while reqs.len() < expected_requests {
@@ -343,10 +348,13 @@ pub fn oracle(c: &Case) -> Verdict {
                 if call.unknown_node {
                     return Verdict::Fail { signature: "call-to-unknown-node-succeeded".into(), detail: format!("{:?}", o) };
                 }
+                if call.unsendable {
+                    return Verdict::Fail { signature: "call-with-unencodable-argument-succeeded".into(), detail: format!("{:?}", o) };
+                }
             }
             Err(e) => {
                 fault_path = true;
-                let allowed = e.contains("RPC timeout") || e.contains("RPC cancelled") || e.contains("not connected") || e.contains("Client error");
+                let allowed = e.contains("RPC timeout") || e.contains("RPC cancelled") || e.contains("not connected") || e.contains("Client error") || call.unsendable;
                 if !allowed {
                     return Verdict::Fail { signature: "unexpected-call-error".into(), detail: format!("call (wave {}, #{}): {e}", o.wave, o.idx) };
                 }
@@ -381,15 +389,16 @@ pub fn oracle(c: &Case) -> Verdict {
             .class_if(c.waves.len() >= 2 && c.reuse_ids, "caller-ids-reused-after-a-round")
             .class_if(c.fault != 0, "peer-closes")
             .class_if(c.second_peer_closes, "another-peer-closes-meanwhile")
-            .class_if(c.reply_overtakes && c.waves.iter().any(|w| w.iter().filter(|c| !c.unknown_node).count() == 1), "caller-held-until-the-reply-is-routed")
+            .class_if(c.reply_overtakes && c.waves.iter().any(|w| w.iter().filter(|c| !c.unknown_node && !c.unsendable).count() == 1), "caller-held-until-the-reply-is-routed")
             .class_if(c.id_stride > 0, "identifiers-2^k-apart")
+            .class_if(c.waves.iter().flatten().any(|c| c.unsendable), "call-whose-request-cannot-be-encoded")
             .class_if(out.switched > 0, "schedule-yields"),
     )
 }
 
 fn strategy() -> impl Strategy<Value = Case> {
     let reply = prop_oneof![4 => Just(Reply::Now), 3 => (0u8..8).prop_map(Reply::After), 2 => Just(Reply::Never), 1 => Just(Reply::Twice), 2 => Just(Reply::NowAndLate)];
-    let call = (any::<u8>(), reply, prop::bool::weighted(0.08)).prop_map(|(timeout_s, reply, unknown_node)| Call { timeout_s, reply, unknown_node });
+    let call = (any::<u8>(), reply, prop::bool::weighted(0.08), prop::bool::weighted(0.06)).prop_map(|(timeout_s, reply, unknown_node, unsendable)| Call { timeout_s, reply, unknown_node, unsendable: unsendable && !unknown_node });
     let wave = prop_oneof![1 => prop::collection::vec(call.clone(), 1..2), 3 => prop::collection::vec(call, 1..7)];
     (prop::collection::vec(wave, 1..4), prop::collection::vec(any::<u8>(), 0..6), prop::collection::vec(any::<u8>(), 0..30), 0u8..3, prop_oneof![6 => Just(0u8), 1 => Just(1u8), 1 => Just(2u8), 2 => Just(3u8)], prop::bool::weighted(0.35), prop::bool::weighted(0.25), prop::bool::weighted(0.4), prop_oneof![3 => Just(0u8), 1 => 1u8..8])
         .prop_map(|(waves, perm, schedule, stray, fault, reuse_ids, second_peer_closes, reply_overtakes, id_stride)| Case { waves, perm, schedule, stray, fault, reuse_ids, second_peer_closes, reply_overtakes, id_stride })
